@@ -545,6 +545,12 @@ func (e *escaper) computeOutCtx(c context, t *template.Template) context {
 			err:   errorf(ErrOutputContext, t.Tree.Root, 0, "cannot compute output context for template %s", t.Name()),
 		}
 	}
+	if ok {
+		// Memoize the computed output context. escapeTemplateBody leaves the assumed one (the
+		// start context) in e.output, which made every later call of a template that ends in a
+		// different context than it starts in continue in the wrong context.
+		e.output[t.Name()] = c1
+	}
 	return c1
 }
 
